@@ -249,6 +249,11 @@ let run_op (c : cache) (op : string) (args : string list) (qs : string list arra
       (match rpc_ctx c (parse_verid (a 0)) with
        | (Some (r, (pid, sid)), c1) -> (Printf.sprintf "ok %d:%d %d" (ni pid) (ni sid) (int_of_nat r.r_work), c1, 0)
        | (None, c1) -> ("none", c1, 0))
+  | "ctxread" ->
+      let kind = (match a 1 with "follower" -> RkFollower | "mixed" -> RkMixed | "preferleader" -> RkPreferLeader | _ -> RkLeader) in
+      (match rpc_ctx_read c (parse_verid (a 0)) kind (nn (int_of_string (a 2))) (a 3 = "1") with
+       | (Some ((_, (pid, sid)), i), c1) -> (Printf.sprintf "ok %d:%d %d" (ni pid) (ni sid) (int_of_nat i), c1, 0)
+       | (None, c1) -> ("none", c1, 0))
   | "u_newregion" ->
       let kinds = List.map (fun x -> match split_on ':' x with
                     | [sid; k; t] -> (int_of_string sid, (int_of_string k, t = "1")) | _ -> raise (Parse x)) (split_on '/' (a 3)) in
